@@ -336,6 +336,9 @@ func taintOf(p *Pool, o Op) string {
 		return 0
 	}
 	dead := func(h int64) bool { e := p.get(h); return e != nil && e.K == KIface && e.Dead }
+	if d36Zone(p, o) {
+		return "enum-grows-under-two-signals-of-one-layout"
+	}
 	switch o.Name {
 	case "NetAddBus":
 		if b := p.bus(a(1)); b != nil && b.ParentNetwork() != nil && b.ParentNetwork() != p.net(a(0)) {
@@ -398,6 +401,65 @@ func taintOf(p *Pool, o Op) string {
 		return taintExtra(p, o)
 	}
 	return ""
+}
+
+// d36Zone: open finding D36 of the C01/C07 stream — an enum referenced by two signals of one layout
+// (one message payload or one multiplexer) grows: SignalEnum verifies every signal alone and pushes
+// in map order (overlap, or an error / a panic after a partial update). Decided on the state before
+// the call; such calls are not generated here (the C01/C07 checks exercise the zone).
+func d36Zone(p *Pool, o Op) bool {
+	var e *acme.SignalEnum
+	newMax := 0
+	switch o.Name {
+	case "EnumAddValue":
+		if len(o.A) < 2 {
+			return false
+		}
+		e = p.enum(o.A[0])
+		if v := p.eval(o.A[1]); v != nil {
+			newMax = v.Index()
+		}
+	case "EvalUpdateIndex":
+		if len(o.A) < 2 {
+			return false
+		}
+		if v := p.eval(o.A[0]); v != nil {
+			e = v.ParentEnum()
+		}
+		if o.A[1] > int64(^uint32(0)) {
+			newMax = int(^uint32(0))
+		} else if o.A[1] > 0 {
+			newMax = int(o.A[1])
+		}
+	default:
+		return false
+	}
+	if e == nil || newMax <= e.MaxIndex() {
+		return false
+	}
+	bits := 0
+	for x := newMax; x > 0; x >>= 1 {
+		bits++
+	}
+	if bits <= e.GetSize() {
+		return false
+	}
+	seen := map[acme.EntityID]bool{}
+	for _, r := range e.References() {
+		var key acme.EntityID
+		if mx := r.ParentMultiplexerSignal(); mx != nil {
+			key = mx.EntityID()
+		} else if m := r.ParentMessage(); m != nil {
+			key = m.EntityID()
+		} else {
+			continue
+		}
+		if seen[key] {
+			return true
+		}
+		seen[key] = true
+	}
+	return false
 }
 
 func isReattach(t string) bool { return len(t) >= 8 && t[:8] == "reattach" }
